@@ -394,6 +394,18 @@ def callback_guard(R, rule, fn, inline=()):
                               '(a %s custom area) this is a call through a null pointer' % (
                                   member, e.where(), '; '.join(_sym.fmt(c) for c in p.cond_terms())[-200:],
                                   'write-only' if member == 'read' else 'read-only'))
+    # and the other way round: where the callback exists it is used - an access is not refused on the strength of the
+    # area's flag word (REG_AF_READABLE / REG_AF_WRITEABLE steer the block interface; typed access and the inspection of a
+    # register's current content go by the callbacks alone, as register_setx does with register_area_can_write)
+    for p in ps:
+        if any(e.kind == 'icall' and e.name.split('.')[-1] in ('read', 'write') for e in p.effects):
+            continue
+        exists = [c for c in p.cond_terms() if c[0] == 'cmp' and c[1] == '!=' and c[3] == C(0) and c[2][0] == 'f' and c[2][2] in ('read', 'write')]
+        onflags = [c for c in p.cond_terms() if c[0] == 'cmp' and any(x[0] == 'f' and x[2] == 'flags' and 'area' in _sym.fmt(x[1]) for x in _sym.subterms(c))]
+        if exists and onflags and p.end == 'return':
+            bad = bad or ('the access is refused under {%s} although the area has the callback: the refusal is decided by the area\'s flag word, which a '
+                          'typed access / content inspection does not go by (a register of a MEMORY_AREA_WO area can be set but no longer read back)'
+                          % '; '.join(_sym.fmt(c) for c in exists + onflags)[:220])
     if ncall == 0:
         return ck.broken(rule, fn + ':callbacks', R.where(fn), 'no call through an area callback found (anchor vanished)')
     ck.verdict(bad is None, rule, fn + ':callbacks', R.where(fn),
